@@ -17,8 +17,9 @@
 // changes what the model sees changes what it generates.
 //
 // The conformance of this model to the real llama.cpp cache is checked by
-// harness/lrunner/conformance (operation sequences replayed on a real
-// llama.Context).
+// harness/lconf (operation sequences replayed on a real llama.Context; the real
+// library pads the cache to a multiple of 32 cells, so this model reports a full
+// cache no later than the library does).
 package llama
 
 import (
